@@ -233,6 +233,13 @@ func (lex *Lexer) emit(typ token.Type, text string) []*token.Token {
 }
 
 func (lex *Lexer) emitText(typ token.Type) []*token.Token {
+	if lex.scanner.Overrun() {
+		// The run of runes that makes up this token (a symbol, a number, a
+		// comment) did not end: it stopped because the scanner window is
+		// full.  Emitting what was scanned so far would split the token in
+		// two and read the tail of a comment as source text.
+		return lex.emitError(token.ErrTokenTooLong, false)
+	}
 	tok := lex.scanner.EmitToken(typ)
 	tok.PrecedingNewlines = lex.precedingNewlines
 	tok.PrecedingSpaces = lex.precedingSpaces
@@ -398,18 +405,19 @@ func trailingBackslashes(s string) int {
 }
 
 func (lex *Lexer) skipWhitespace() {
-	if lex.scanner.AcceptSeqSpace() > 0 {
+	lex.precedingNewlines = 0
+	lex.precedingSpaces = 0
+	// Whitespace is not a token, so a run of it is not limited by the scanner
+	// window: it is dropped one window at a time.
+	for lex.scanner.AcceptSeqSpace() > 0 {
 		text := lex.scanner.Text()
-		lex.precedingNewlines = strings.Count(text, "\n")
-		if lex.precedingNewlines == 0 {
-			lex.precedingSpaces = len(text)
-		} else {
+		if n := strings.Count(text, "\n"); n > 0 {
+			lex.precedingNewlines += n
 			lex.precedingSpaces = 0
+		} else if lex.precedingNewlines == 0 {
+			lex.precedingSpaces += len(text)
 		}
 		lex.scanner.Ignore()
-	} else {
-		lex.precedingNewlines = 0
-		lex.precedingSpaces = 0
 	}
 }
 
